@@ -11,7 +11,7 @@ import socket
 import stat
 
 NAME_ALPHA = "abcdefgxyzABCXYZ0123456789"
-NAME_PUNCT = " .-_+()[]{}^$,'#~"
+NAME_PUNCT = " .-_+()[]{}^$,'#~\\*?|&:=@!%;"       # incl. the backslash (a path separator elsewhere) and the wildcard characters
 UNI = ["é", "ß", "ж", "日本", "𝄞", "ä"]
 
 
@@ -49,6 +49,11 @@ def gen_tree(rng, max_entries=30, max_depth=5, kinds=("file", "dir", "link", "fi
         r = rng.random()
         name = rand_name(rng, used, adversarial, exts)
         if depth < max_depth and r < p_dir:
+            if adversarial and rng.random() < 0.12 and (name[:1] + "\\" + name[1:]) not in used:
+                # a directory whose name contains a backslash: one name on this system, two path components elsewhere
+                used.discard(name)
+                name = name[:1] + "\\" + name[1:]
+                used.add(name)
             node = {"name": name, "kind": "dir", "kids": []}
             used2 = set()
             nk = rng.choice([0, 1, 1, 2, 2, 3, 4, 6])
